@@ -15,6 +15,7 @@ from .. import fakepool
 
 FEATS = ['qa', 'qb', 'qc']           # features 1, 2, 3 of Parallel.tla
 QUALI = ['ka', 'kb']
+SPARSE = ['ia', 'ib', 'ic']      # id-like qualitative features: dropped for sparsity (no modality reaches min_freq)
 
 
 def dataset(seed):
@@ -29,6 +30,8 @@ def dataset(seed):
         nlev = rng.randint(2, 5)
         cats = [float(i + 1) for i in range(nlev)] if rng.random() < 0.5 else [i + 1 for i in range(nlev)]
         feats[f] = {'kind': 'categ', 'values': [None if rng.random() < 0.1 else cats[rng.randrange(nlev)] for _ in range(n)]}
+    for j, f in enumerate(SPARSE):
+        feats[f] = {'kind': 'categ', 'values': ['%s%02d' % (f, (i * (j + 1)) % n) for i in range(n)]}
     y = [rng.randint(0, 1) for _ in range(n)]
     y[0], y[1] = 0, 1
     return {'features': feats, 'y': y,
@@ -91,7 +94,7 @@ def run_dataset(seed, schedules, hash_seeds=(), real_pool=False):
     ds = dataset(seed)
     cases = []
     for cls in CLASSES:
-        names = FEATS if cls == 'ContinuousDiscretizer' else FEATS + QUALI
+        names = FEATS if cls == 'ContinuousDiscretizer' else FEATS + QUALI + SPARSE
         table = {}
 
         def code(text):
